@@ -274,7 +274,7 @@ func checkC02(w *Worker) {
 	})
 	// every special scenario whose amounts are exact (harness/specials.go) through every renderer, against the reference
 	var c02Specials []specialScenario
-	for _, sc := range specialScenarios() {
+	for _, sc := range specialsFor(w.Tier) {
 		if sc.Exact && sc.Name != "repeated-heading-in-the-book" { // (which of two definitions counts is not C02's business)
 			c02Specials = append(c02Specials, sc)
 		}
